@@ -99,6 +99,14 @@ def crashImage (st : St) (k : Nat) (cut : String) : DB :=
   let complete := if cut == "write" && k % 3 == 2 then k / 3 + 1 else k / 3
   { store := reopen st.prev.store, wal := st.prev.wal ++ batch.take complete }
 
+/-- a table of a recovered image cannot be read at all (anything but rows or "no such table") -/
+def damaged (tableLines : List String) : Bool :=
+  tableLines.any fun l => match words l with
+    | "table" :: _ :: "rows" :: _ => false
+    | ["table", _, "err", "tableNotExist"] => false
+    | "table" :: _ => true
+    | _ => false
+
 def runProbes (db : DB) (tables : List Bytes) : List String → DB × List String
   | [] => (db, [])
   | p :: rest =>
@@ -150,6 +158,7 @@ def stepLine (st : St) (line : String) : St × List String :=
     let continue_ (head : String) (db : DB) : St × List String :=
       let db := { db with store := reopen db.store }
       let (db1, tl) := tableLines db st.tables
+      if damaged tl then (st, [head] ++ tl ++ ["end"]) else
       let (db2, pl) := runProbes db1 st.tables probes
       if pl.any (· == "hang") then (st, [head] ++ tl ++ (pl.takeWhile fun l => l != "hang") ++ ["hang", "end"]) else
       if pl.any (· == "panic") then (st, [head] ++ tl ++ (pl.takeWhile fun l => l != "panic") ++ ["panic", "end"]) else
@@ -167,13 +176,16 @@ def stepLine (st : St) (line : String) : St × List String :=
     | .panic _ => (st, ["recover panic", "end"])
     | .unmodelled w => (st, ["recover unmodelled " ++ w, "end"])
     | .fuel => (st, ["recover hang", "end"])
-  | "fimage" :: j :: _ :: _ :: ord :: more =>
+  | "fimage" :: j :: _ :: alloc :: ord :: more =>
+    -- images in the class of the known torn-flush finding (fresh pages among those being written,
+    -- at least one page written) are judged but not compared: no prediction
+    if alloc == "alloc=1" && j != "0" then (st, []) else
     let order := ((ord.drop 6).toString.splitOn ",").filterMap (·.toNat?)
     let img : DB := { store := tornFlush st.preFlush order (natOr j), wal := st.db.wal }
     let probes : List String := more.filterMap fun w => if w.startsWith "probe=" then some (w.drop 6).toString else none
     let continue_ (head : String) (db : DB) : St × List String :=
       let (db1, tl) := tableLines { db with store := reopen db.store } st.tables
-      if probes.isEmpty then (st, [head] ++ tl ++ ["end"]) else
+      if probes.isEmpty || damaged tl then (st, [head] ++ tl ++ ["end"]) else
       -- one more acknowledged statement, a second crash, a second recovery
       let (db2, pl) := runProbes db1 st.tables probes
       -- a statement that panics or runs away ends the inspection of the image
